@@ -17,6 +17,8 @@
 //              all-nodes ambient list (must be all 0: the caller's node list is not the step's node list)
 //         alts: for alternative 0, 1, …, k (k = number of alternatives, i.e. one past the last) the scores of every node
 //               from getMatchScore(node, resolver, ctx, theAlternative), comma separated
+//         ns: number of namespace-declaration attributes (xmlns, xmlns:p — not numbered) on which getMatchScore and the
+//             defining side disagree (must be 0)
 //         m: XPath::getMatchScore(N) for every node N of the current document (0 none,1 nodetest,2 nswild,3 qname,4 other)
 //         s: the *defining* side evaluated by the real expression engine: 1 iff some ancestor-or-self A of N has
 //            N in XPath::execute(P as expression, context A)
@@ -90,6 +92,9 @@ struct DocState
     std::vector<XalanNode*>                         nodes;
     std::vector<int>                                parent;
     std::map<const XalanNode*, int>                 index;
+    // namespace-declaration attributes (not numbered): node -> index of the owner element
+    std::vector<std::pair<XalanNode*, int> >        nsdecls;
+    std::map<const XalanNode*, int>                 nsIndex;
     std::string                                     xml;
 
     explicit DocState(bool xerces)
@@ -146,7 +151,11 @@ static void number(DocState& d, XalanNode* n, int par, std::ostringstream& o)
                 // namespace declarations (the source tree adds xmlns:xml to the document element) are namespace
                 // nodes of the data model, not attributes; patterns cannot match them: not numbered
                 if (DOMServices::isNamespaceDeclaration(static_cast<const XalanAttr&>(*at->item(j))))
+                {
+                    d.nsIndex[at->item(j)] = int(d.nsdecls.size());
+                    d.nsdecls.push_back(std::make_pair(at->item(j), me));
                     continue;
+                }
                 number(d, at->item(j), me, o);
             }
     }
@@ -283,6 +292,7 @@ int main()
                             if (char('0' + int(pat->getMatchScore(d->nodes[i], resolver, ec))) != m[i]) amb[i] = '1';
                         }
                     }
+                    std::vector<bool> nsSel(d->nsdecls.size(), false);
                     // the defining side: N in eval(P, A) for an ancestor-or-self A of N
                     for (size_t a = 0; a < n; ++a)
                     {
@@ -291,7 +301,23 @@ int main()
                         for (NodeRefListBase::size_type k = 0; k < nl.getLength(); ++k)
                         {
                             std::map<const XalanNode*, int>::const_iterator it = d->index.find(nl.item(k));
-                            if (it == d->index.end()) continue;
+                            if (it == d->index.end())
+                            {
+                                // a namespace-declaration attribute in the result: selected from an ancestor-or-self
+                                // of its owner element?
+                                std::map<const XalanNode*, int>::const_iterator ns = d->nsIndex.find(nl.item(k));
+                                if (ns != d->nsIndex.end())
+                                {
+                                    int x = d->nsdecls[ns->second].second;
+                                    for (;;)
+                                    {
+                                        if (size_t(x) == a) { nsSel[ns->second] = true; break; }
+                                        if (x == 0) break;
+                                        x = d->parent[x];
+                                    }
+                                }
+                                continue;
+                            }
                             // is node a an ancestor-or-self of it->second ?
                             int x = it->second;
                             for (;;)
@@ -318,7 +344,15 @@ int main()
                                 alts.push_back(char('0' + int(pat->getMatchScore(d->nodes[i], resolver, ec, a))));
                         }
                     }
-                    o << "codes=" << codes << " amb=" << amb << " alts=" << alts << " m=" << m << " s=" << sp;
+                    // raw namespace-declaration attributes (what e.g. KeyTable offers to the matcher): how many of them
+                    // are matched by the pattern although not selected by the expression, or vice versa
+                    size_t nsBad = 0;
+                    for (size_t k = 0; k < d->nsdecls.size(); ++k)
+                    {
+                        const bool matched = pat->getMatchScore(d->nsdecls[k].first, resolver, ec) != XPath::eMatchScoreNone;
+                        if (matched != bool(nsSel[k])) ++nsBad;
+                    }
+                    o << "codes=" << codes << " amb=" << amb << " alts=" << alts << " ns=" << nsBad << " m=" << m << " s=" << sp;
                 }
                 catch (const XSLException&)
                 {
